@@ -133,7 +133,9 @@ Lemma total_write_payload a d l : total (write_payload a d l).
 Proof. unfold write_payload. total_tac. Qed.
 Lemma total_group_delete p a g k b : total (group_delete p a g k b).
 Proof. unfold group_delete. total_tac. Qed.
-#[export] Hint Resolve total_auto_touch total_write_payload total_group_delete : total.
+Lemma total_auto_touch_for c n a now : total (auto_touch_for c n a now).
+Proof. unfold auto_touch_for. destruct (touches c n); [apply total_auto_touch | apply total_ret]. Qed.
+#[export] Hint Resolve total_auto_touch total_write_payload total_group_delete total_auto_touch_for : total.
 
 (* ---- atomic, for R = equality: nothing at all is left behind *)
 Definition same : store -> store -> Prop := eq.
